@@ -300,4 +300,38 @@ def c13(tier):
         LIFE_FUNCS)
 
 
-PROPS = {'C07': c07, 'C08': c08, 'C09': c09, 'C13': c13, 'C03': c03, 'C02': c02, 'C05': c05, 'C01': c01, 'C04': c04, 'C14': c14}
+HS_FUNCS = ['lomond.websocket.WebSocket.__init__/State.__init__/build_request/on_response/process_extensions/feed',
+            'lomond.response.Response.__init__/get/get_list', 'lomond.stream.WebsocketStream.feed',
+            'lomond.parser.Parser.feed (_ReadUntil, check_length)', 'lomond.frame_parser.FrameParser.parse',
+            'lomond.extension.parse_extension', 'lomond.compression.Deflate.from_options']
+
+
+def c10(tier):
+    q = tier == 'quick'
+    S = lambda name, func, what, **P: Spec(name, 'checks.handshake', func, dict(P, xval_stride=P.get('xval_stride', 23)), what=what,
+                                           xval=not (P.get('sym_key') or func == 'run_fresh_key'))
+    specs = [
+        S('request', 'run_request', 'os.urandom(16) = 16 symbolic bytes; build_request() for a grid of URL shapes x compress x protocols x custom headers; '
+          'independent request reader + reference base64 DEcoder: key header decodes to exactly the drawn bytes, for all 2^128 keys'),
+        S('reply-status', 'run_reply', 'plain reply, symbolic holes: 3 status bytes (ANY byte values), 9-byte Upgrade value (token chars), '
+          '28-byte Sec-WebSocket-Accept value (base64 chars); Ready <=> status==101 and lower(upgrade)==websocket and '
+          'accept == b64(sha1(key+GUID)) exactly', templates=['plain'], sym_case=False),
+        S('reply-templates', 'run_reply', 'status fixed to 101; template (header order / duplicates / obs-fold / whitespace / missing headers) and header-name '
+          'case chosen by solver variables; Upgrade and Accept values are symbolic holes', sym_status=False),
+        S('reply-symkey', 'run_reply', 'symbolic key: sha1 is an uninterpreted 20-byte vector D(key); status and holes symbolic',
+          sym_key=True, templates=['plain', 'folded-accept'], sym_case=False),
+        S('fresh-key', 'run_fresh_key', 'one WebSocket object connect()ed 3 times; os.urandom(16) symbolic per call; the key of request i must decode to the draw made for attempt i; a reply recorded from attempt 1 is optionally replayed later', xval_stride=2),
+        S('oversize', 'run_oversize', 'header block of 16384-3..16384+3 bytes, terminated or not, one read or cut at a symbolic position around the bound'),
+    ]
+    if not q:
+        specs.append(S('reply-bytewise', 'run_reply', 'reply holes delivered byte at a time', cuts='bytewise',
+                       templates=['plain', 'folded-upgrade', 'padded']))
+        specs.append(S('reply-all', 'run_reply', 'full product: symbolic status x all templates x name case'))
+    return run_property('C10', tier, specs, 'model_checking', 'Ready only for a correct upgrade reply', ENV_ASSUMPTIONS + [
+        'SHA-1 is uninterpreted (congruence only); replay uses the real one',
+        'urlparse is library code: URL shapes are a concrete grid',
+        'Upgrade/Accept holes range over token / base64 characters (structure characters CR LF SP : , are exercised by the templates instead)'],
+        HS_FUNCS)
+
+
+PROPS = {'C10': c10, 'C07': c07, 'C08': c08, 'C09': c09, 'C13': c13, 'C03': c03, 'C02': c02, 'C05': c05, 'C01': c01, 'C04': c04, 'C14': c14}
